@@ -361,6 +361,12 @@ fire("C11", "reintroduce: empty accumulators concatenated", "R1.accumulator-test
 fire("C11", "negative radius rejected only with a lattice? no: new unconditional rejection", "R3.no-stricter-than-plain-grid",
      ("sub", "periodicgrid.py", "        if radius < 0:\n            raise ValueError(f\"Negative radius: {radius}\")\n",
       "        if radius < 0:\n            raise ValueError(f\"Negative radius: {radius}\")\n        if radius > 1e6:\n            raise ValueError(\"radius too large\")\n"))
+fire("C11", "reintroduce: flat 1-D points without lattice vectors cannot be constructed", "R5.constructs-in-every-configuration",
+     ("sub", "periodicgrid.py", "            frac_points = points * recivecs if realvecs.size > 0 else np.zeros(0)\n", "            frac_points = points * recivecs\n"))
+fire("C11", "spacings computed along the wrong axis of the reciprocal vectors", "R5.constructs-in-every-configuration",
+     ("sub", "periodicgrid.py", "            spacings = 1 / np.linalg.norm(self._recivecs, axis=1)\n", "            spacings = 1 / np.linalg.norm(self._recivecs, axis=0)\n"))
+fire("C11", "fractional coordinates formed without transposing the reciprocal vectors", "R5.constructs-in-every-configuration",
+     ("sub", "periodicgrid.py", "            frac_points = points @ recivecs.T\n", "            frac_points = points @ recivecs\n"))
 silent("C11", "no-lattice case delegated to the plain grid (repairs the known finding)",
        ("sub", "periodicgrid.py", "        if not np.isfinite(radius):\n            raise ValueError(f\"Invalid radius: {radius}\")\n",
         "        if self._realvecs.size == 0:\n            return super().get_localgrid(center, radius)\n        if not np.isfinite(radius):\n            raise ValueError(f\"Invalid radius: {radius}\")\n"))
